@@ -135,6 +135,16 @@ REGISTRY = {
         ],
         "require": {"c17:blocks:1": 2607, "c17:blocks:2": 747, "c17:blocks:3": 614, "c17:blocks:4": 1031, "c17:parse:extend": 874, "c17:parse:flip": 1179, "c17:parse:length": 900, "c17:parse:none": 1164, "c17:parse:truncate": 880, "c17a:block-0": 758, "c17a:block-0-lone": 769, "c17a:changed-header": 1365, "c17a:duplicate": 1231, "c17a:new-message": 1202, "c17a:next": 4804, "c17a:next-after-T4": 1339, "c17a:skipped-number": 896, "c17a:wrong-device": 1348, "c17a:wrong-direction": 1366, "c17l:in:bad-checksum": 704, "c17l:in:bad-length": 2074, "c17l:in:block-0": 47, "c17l:in:block-0-lone": 131, "c17l:in:changed-header": 30, "c17l:in:duplicate": 1551, "c17l:in:new-message": 136, "c17l:in:next": 21644, "c17l:in:next-after-T4": 2643, "c17l:in:skipped-number": 21, "c17l:in:wrong-device": 710, "c17l:in:wrong-direction": 151, "c17l:inbound": 4888, "c17l:out:blocks:1": 727, "c17l:out:blocks:2": 26, "c17l:out:blocks:3": 25, "c17l:out:blocks:4": 40, "c17l:out:forward": 129, "c17l:out:nak-retry": 644, "c17l:out:send": 690, "c17l:outbound": 620, "c17l:role:equipment": 101, "c17l:role:host": 5406},
     },
+    "C18": {
+        "level": "fault_enumeration",
+        "claim": "Two real secs1 connections (equipment + host) joined by a character-level middlebox that follows the E4 grammar in both directions and applies generated fault plans (one flipped character in a block's header/body/checksum, truncated or dropped blocks, dropped ENQ/EOT/ACK/NAK, ACK replaced by NAK, EOT/ACK delayed beyond T2) while both sides send multi-block messages concurrently (contention), retry limits 0..3; a token ledger checks that every send that returned success was delivered exactly once and intact, per-direction order, no duplicate or altered delivery whatever the send returned, at most retry-limit+1 line requests per block (per contention yield for the host), bounded completion, and recovery to a working line after a failed send.",
+        "trust": "Real time with T1 50 ms / T2 150 ms: only content, order, counts and generous upper bounds are asserted, so scheduling jitter can add retries but not false alarms. The length byte is never corrupted (E4 does not guarantee detection there).",
+        "technique": "property-based testing (rapid): generated fault plans x concurrent send programs through an E4-aware fault-injecting proxy; exactly-once ledger oracle",
+        "tests": [
+            {"name": "TestC18ExactlyOnce", "shards": 8, "shards_thorough": 16, "crash_is_violation": True},
+        ],
+        "require": {"c18:contention": 88, "c18:fault:ACK:delay": 5, "c18:fault:ACK:drop": 8, "c18:fault:ACK:replace-nak": 5, "c18:fault:ENQ:drop": 14, "c18:fault:EOT:drop": 14, "c18:fault:NAK:drop": 5, "c18:fault:block:drop": 14, "c18:fault:block:flip": 30, "c18:fault:block:truncate": 11, "c18:faults-hit:0": 37, "c18:faults-hit:1": 34, "c18:faults-hit:2": 17, "c18:faults-hit:3": 11, "c18:rty:0": 25, "c18:rty:1": 27, "c18:rty:2": 20, "c18:rty:3": 27, "c18:send-failed": 17},
+    },
     "C19": {
         "level": "exploration",
         "claim": "Generated observation histories (probe outcome, receive stamps before/at/after the probe, in-flight counts at evaluation and re-check, thresholds 1-6, suppression on/off) folded through the library's real failure-accounting reducers exactly as the probe loop folds them and compared step by step with a reference model plus windowed history invariants; end to end, seven peer personalities against real connections in virtual time, where the number and instants of probes and the instant of the drop are compared exactly with what the suppression rules prescribe.",
